@@ -55,7 +55,8 @@ type pieceReader struct {
 	zeroEvery bool
 	piece     int
 	polled    bool
-	// failing mode: an error once failAt bytes have been handed out (-1: never)
+	// failing mode (breaks set): an error once failAt bytes have been handed out
+	breaks bool
 	failAt int
 	given  int
 }
@@ -76,11 +77,11 @@ func (r *pieceReader) Read(p []byte) (int, error) {
 		return 0, nil
 	}
 	r.polled = false
-	if r.failAt >= 0 && r.given >= r.failAt {
+	if r.breaks && r.given >= r.failAt {
 		return 0, fmt.Errorf("scripted body stream error")
 	}
 	n := len(p)
-	if r.failAt >= 0 && r.given+n > r.failAt && r.failAt > r.given {
+	if r.breaks && r.given+n > r.failAt {
 		n = r.failAt - r.given
 	}
 	if r.zeroEvery && r.piece < n {
@@ -181,7 +182,7 @@ func genProg(tp *core.Tape, idx int, ep *core.Episode, method string) *respProg 
 	body := core.PatternBytes(byte(50+idx), size)
 	mkReader := func() io.Reader {
 		ek := tp.Choose("reofw", 5) // 0/1 as before (recorded tapes); 2: the stream also implements io.WriterTo; 3: a polling stream; 4: a stream that fails half way
-		r := &pieceReader{data: append([]byte(nil), body...), zeroes: zeroReads(ep, tp), eofw: ek == 1, failAt: -1}
+		r := &pieceReader{data: append([]byte(nil), body...), zeroes: zeroReads(ep, tp), eofw: ek == 1}
 		for i := 0; i < 5; i++ {
 			r.sizes = append(r.sizes, 1+tp.Choose("rsz", 6000))
 		}
@@ -191,7 +192,7 @@ func genProg(tp *core.Tape, idx int, ep *core.Episode, method string) *respProg 
 		}
 		if ek == 4 && p.mode == 4 && len(body) > 0 && !bodiless {
 			// a stream of announced length that breaks off: the response cannot be completed, the connection has to end
-			r.failAt = tp.Choose("failat", len(body))
+			r.breaks, r.failAt = true, tp.Choose("failat", len(body))
 			p.fails = true
 			ep.Probe("stream-fails")
 		}
